@@ -414,6 +414,12 @@ def run(chk):
     d1_immutability(chk, prog, eff)
     d2_rng(chk, prog, eff)
     d3_fanout(chk, prog, eff)
+    chk.clause("D3b", "1 worker and N workers compute the same table: the fan-out drivers interpreted for 1 and 3 processes (rules of C09-D5 and C03-D5), the chunker on all small inputs")
+    from . import C09, C03
+    C09.chunker(chk, prog)
+    C09.d5b(chk, prog)
+    C09.d5c(chk, prog)
+    C03.d5(chk, prog)
     d4_hidden_state(chk, prog, eff)
     d5_ensure_path(chk, prog)
     chk.sample(dict(effects_rounds=eff.rounds, functions=len(eff.sum),
